@@ -588,6 +588,20 @@ def run_history(rec, tap, rng, cid):
         rec.event("scripted prefix: option name rejected inside a step, "
                   "options taken back, fit")
     elif rng.random() < .1:
+        # the stored pipeline is edited to the SAME steps in another (valid)
+        # order - steps are applied in the order given, the data differ
+        pa = ["compute_tip_position", "correct_tip_offset",
+              "correct_force_offset", "correct_force_slope"]
+        pb = ["compute_tip_position", "correct_tip_offset",
+              "correct_force_slope", "correct_force_offset"]
+        if rng.random() < .5:
+            pa, pb = pb, pa
+        oo = copy.deepcopy(OPTS[int(rng.choice([0, 3]))])
+        queue = [("prep", pa, oo), ("fit", {}),
+                 ("edit", {"preprocessing": pb}), ("fit0",), ("fit0",)]
+        rec.event("scripted prefix: stored pipeline edited to the same "
+                  "steps in another order, fit")
+    elif rng.random() < .1:
         # E(delta) scan, another number of samples (plateau search off), scan
         ns2 = int(rng.choice([8, 11, 12]))
         chg = ("fit", {"optimal_fit_num_samples": ns2}) \
